@@ -180,6 +180,22 @@ def flatten(rep, prog, fn):
             rep.violation("C20.flatten-width", prog, fn, n, "flattening computed in 32-bit arithmetic",
                           "%s multiplies 32-bit values in %s before widening to size_t: for grids of more than 2^32 voxels the index wraps and a different voxel is addressed" % (short(n, 100), [m.get("t") for m in muls if is32(m.get("t", ""))][0]))
 
+    # the total count accumulated factor by factor (total = 1; total *= n_axis; ...) and handed to resize(): the products are
+    # computed in the type of the accumulator
+    for rz in [x for x in walk(fn["body"]) if x.get("k") == "CXXMemberCallExpr" and x.get("callee", "").endswith("::resize") and call_args(x)]:
+        a0 = strip(call_args(rz)[0])
+        if a0.get("k") != "DeclRefExpr" or (a0.get("ref") or {}).get("dk") != "Var":
+            continue
+        did = a0["ref"]["did"]
+        ups = [x for x in walk(fn["body"]) if x.get("k") == "CompoundAssignOperator" and x.get("op") == "*=" and strip(x["c"][0]).get("k") == "DeclRefExpr" and strip(x["c"][0])["ref"].get("did") == did]
+        decl = [v for v in walk(fn["body"]) if v.get("k") == "Var" and v.get("did") == did]
+        if len(ups) >= 2 and decl:
+            if not is32(decl[0].get("t", "")):
+                rep.ok("C20.flatten-width", prog, fn, rz, "total voxel count accumulated by *= in %s" % decl[0].get("t"))
+            else:
+                rep.violation("C20.flatten-width", prog, fn, rz, "total voxel count computed in 32-bit arithmetic",
+                              "%s accumulates the product of the voxel counts in a %s: for grids of more than 2^32 voxels the storage is sized with the wrapped product and place_object writes out of bounds" % (fn["qn"], decl[0].get("t")))
+
 
 def clean(x):
     return re.sub(r"#\d+", "", str(x))
@@ -336,6 +352,44 @@ def _positive_constant(prog, name):
     return False
 
 
+def _fold_written_locals(prog, fn, ev, value, upto):
+    """value with every symbol that names a local scalar which is written by top-level statements only (declaration, =, *=, +=)
+    before `upto` replaced by the value those statements leave in it"""
+    fi = prog.index(fn)
+    def flat(stmts):
+        for st_ in stmts:
+            if strip(st_).get("k") == "CompoundStmt":
+                yield from flat(strip(st_).get("c", []))
+            else:
+                yield st_
+    top = list(flat(fn["body"].get("c", [])))
+    for sym_ in list(value.free_symbols):
+        decl = [v for v in walk(fn["body"]) if v.get("k") == "Var" and sym_.name in (v.get("name"), "%s#%s" % (v.get("name"), v.get("did")))]
+        if len(decl) != 1:
+            continue
+        did = decl[0]["did"]
+        cur = None
+        for st_ in top:
+            if fi.order[id(st_)] > fi.order[id(upto)]:
+                break
+            x = strip(st_)
+            hits = [y for y in walk(x) if y.get("k") in ("BinaryOperator", "CompoundAssignOperator", "UnaryOperator") and (y.get("op") in ("=", "*=", "+=", "-=", "/=") or "++" in y.get("op", "") or "--" in y.get("op", "")) and strip(y["c"][0]).get("k") == "DeclRefExpr" and strip(y["c"][0])["ref"].get("did") == did]
+            if x.get("k") == "DeclStmt" and any(d_ is decl[0] for d_ in x.get("decls", [])):
+                cur = sp.sympify(ev.ev(decl[0]["init"])) if isinstance(decl[0].get("init"), dict) else None
+                continue
+            if not hits:
+                continue
+            if len(hits) != 1 or hits[0] is not x or cur is None and x.get("op") != "=":
+                raise S.Decline("the local '%s' is written inside a nested statement" % sym_.name)
+            rhs = sp.sympify(ev.ev(x["c"][1])).subs(sym_, cur) if cur is not None else sp.sympify(ev.ev(x["c"][1]))
+            cur = {"=": rhs, "*=": (cur * rhs) if cur is not None else None, "+=": (cur + rhs) if cur is not None else None}.get(x.get("op"))
+            if cur is None:
+                raise S.Decline("the local '%s' is updated with '%s'" % (sym_.name, x.get("op")))
+        if cur is not None:
+            value = value.subs(sym_, cur)
+    return sp.expand(value)
+
+
 def update_dimensions(rep, prog, fn):
     ev = S.SymEval(prog, fn)
     try:
@@ -400,8 +454,16 @@ def update_dimensions(rep, prog, fn):
             sz = sp.expand(sp.sympify(ev2.ev(call_args(resize[0])[0])))
             nx, ny, nz = [ev2.sym("this.nb_voxels_%s_" % a) for a in "xyz"]
             if sz != sp.expand(nx * ny * nz):
-                ok = False
-                msgs.append("storage sized with %s, expected nx*ny*nz" % clean(sz))
+                # the size may be computed from locals that are also what the count members receive: compare the values
+                try:
+                    szv = _fold_written_locals(prog, fn, ev2, sz, resize[0])
+                    vals = {sym_: sp.sympify(st.get("this.nb_voxels_%s_" % a)) for sym_, a in zip((nx, ny, nz), "xyz") if st.get("this.nb_voxels_%s_" % a) is not None}
+                    same = len(vals) == 3 and sp.expand(szv.subs(vals) - vals[nx] * vals[ny] * vals[nz]) == 0
+                except (S.Decline, sp.SympifyError, TypeError):
+                    same = False
+                if not same:
+                    ok = False
+                    msgs.append("storage sized with %s, expected nx*ny*nz" % clean(sz))
         except S.Decline as e:
             raise AnalysisBroken("%s: %s" % (prog.loc(fn, resize[0]), e))
     if ok:
